@@ -1,5 +1,8 @@
 """C19: HTTP API envelope and the client half that reads it back (spec/http/HttpApi.tla)."""
 import os
+from concurrent.futures import ThreadPoolExecutor
+
+from lib import vlib
 
 NONVACUITY = [
     ("MC_HttpApi_missingcode.cfg", "ClientNeverConfuses"),   # client treats a missing code as success
@@ -8,7 +11,11 @@ NONVACUITY = [
     ("MC_HttpApi_swallow.cfg", "UnmarshalableIsError"),      # marshal error swallowed: 200 with an empty body
     ("MC_HttpApi_constcode.cfg", "ErrorOwnCode"),            # error code replaced by a constant
     ("MC_HttpApi_nostatus.cfg", "ErrorOwnCode"),             # Status() of a plain error not applied
+    ("MC_HttpApi_firstcached.cfg", "ResponseOfCurrentValue"),  # handler object replays the response of its first request
 ]
+
+# seeded random long lives of a handler object: (behaviours, TLC depth) per tier; MaxServes is in the cfg
+HIST_SIM = {"quick": (200, 60), "thorough": (4000, 90)}
 
 
 def run(ctx):
@@ -16,7 +23,14 @@ def run(ctx):
                 "plain error, plain error with its own status) x the dimensions that kind reads (error code, status, message "
                 "class, value class) x callback parameter (absent, empty, names) x configured Server header, and emits every row "
                 "with the specification's expected response and client verdict; a case is distinct if its JSON differs. Every row "
-                "is replayed through every public entry point producing that answer (recorder) and through ApiRequest (loopback server)")
+                "is replayed through every public entry point producing that answer (recorder) and through ApiRequest (loopback server). "
+                "Life of a handler object: the answer is made ONCE (Data / Error / CplxError handler, or a function calling the Write* "
+                "forms), registered on a ServeMux and served MaxServes times while the application changes the value behind the "
+                "reference between requests (any class to any class, marshalable or not) and the callback varies per request; TLC "
+                "enumerates all such behaviours over few classes (quick: 3 requests x 2 classes x 2 callbacks, thorough: 4 x 3 x 2; a "
+                "mutation may also stay within the class: new version of the content) and "
+                "simulates seeded long ones over the whole value table (8 / 12 requests); each request is judged by the row of the value "
+                "behind the object AT THAT REQUEST (invariant ResponseOfCurrentValue)")
     ctx.exhaustive = True
     ctx.assumptions += [
         "value classes are concretised by the replayer (fixed table of Go values with hand-written expected documents, plus seeded "
@@ -26,15 +40,73 @@ def run(ctx):
         "judged per the property only: success rows on status, Content-Type, Server header, wrapping and envelope; coded errors on "
         "the code member; plain errors on the HTTP status; unmarshalable values on 'is an error response'; the client's verdict on a "
         "JSONP-wrapped success is not judged",
+        "life of a handler object: requests are served one after the other (no mutation while a request is in flight); the value is "
+        "changed through the reference handed to Data (map members, *struct fields, *interface{}, slice elements, a json.Marshaler "
+        "reading its present state) or, for the Write* forms, also by handing the present value at each request; errors are immutable "
+        "(only the callback varies between requests); the Server header is configured once before the object is made",
     ]
-    ctx.sany("http", "HttpApi")
-    ctx.tlc("http", "MC_HttpApi", "MC_HttpApi.cfg", coverage=(ctx.tier == "thorough"))
-    for cfg, inv in NONVACUITY:
-        ctx.tlc("http", "MC_HttpApi", cfg, expect_violation=inv, count_states=False, workers=2)
+    # ---- phase 1: the specification runs are independent of one another: side by side, with the harness builds
+    quick = ctx.tier == "quick"
+    pool = ThreadPoolExecutor(max_workers=6)
     cases = os.path.join(ctx.out, "cases.ndjson")
-    ctx.tlc("http", "Gen_HttpApi", "Gen_HttpApi.%s.cfg" % ctx.tier, cases_to=cases, timeout=600)
+    hist = os.path.join(ctx.out, "hist.ndjson")
+    simraw = os.path.join(ctx.out, "hist_sim_raw.ndjson")
+    nsim, depth = HIST_SIM[ctx.tier]
+    tw = 2 if quick else 4
+
+    def tlc(*a, **kw):
+        kw.setdefault("workers", tw)
+        kw["count_states"] = False       # counted below, in this thread
+        return pool.submit(ctx.tlc, "http", *a, **kw)
+
+    others = [pool.submit(ctx.sany, "http", "HttpApi"), pool.submit(ctx.go_build)]
+    counted = [
+        tlc("Gen_HttpApi", "Gen_HttpApi.%s.cfg" % ctx.tier, cases_to=cases, timeout=600),
+        # life of a handler object: made once, served several times while the value behind it changes
+        tlc("Gen_HttpApiHist", "Gen_HttpApiHist.%s.cfg" % ctx.tier, cases_to=hist, timeout=600),
+        tlc("MC_HttpApi", "MC_HttpApi.cfg", coverage=not quick),
+        # the life of one handler object: 3 (thorough: 4) requests, every mutation between them
+        tlc("MC_HttpApi", "MC_HttpApi_hist.%s.cfg" % ctx.tier, coverage=not quick),
+    ]
+    others.append(tlc("Gen_HttpApiHist", "Gen_HttpApiHist_sim.%s.cfg" % ctx.tier, simulate=nsim, depth=depth, workers=1,
+                      cases_to=simraw, timeout=600))
+    for cfg, inv in NONVACUITY:
+        others.append(tlc("MC_HttpApi", cfg, expect_violation=inv, workers=2))
+    others.append(pool.submit(ctx.go_build, True))
+    err = None
+    for f in counted + others:
+        try:
+            info = f.result()
+        except Exception as e:       # let the other runs end before reporting the first failure
+            err = err or e
+            continue
+        if f in counted:
+            ctx.states += info["distinct"]
+            ctx.transitions += info["generated"]
+    pool.shutdown()
+    if err:
+        raise err
+
+    # ---- phase 2: replay on the real handlers
     res = ctx.replay("httpapi", cases)
     ctx.judge("httpapi", cases, res)
+
+    n_exh = len(ctx.load_cases(hist))
+    seen = set(ctx.load_cases(hist))
+    nlong = 0
+    with open(hist, "a") as f:
+        for line in ctx.load_cases(simraw):      # in simulation mode a terminal state may be printed more than once
+            if line not in seen:
+                seen.add(line)
+                f.write(line + "\n")
+                nlong += 1
+    os.remove(simraw)
+    if n_exh == 0 or nlong < nsim // 2:
+        raise vlib.Broken("history generation: %d exhaustive and %d simulated behaviours reached Finish (asked for %d)" % (n_exh, nlong, nsim))
+    ctx.notes["handler_object_lives"] = {"exhaustive": n_exh, "simulated": nlong}
+    # (the second pass of vlib looks for state kept across cases; here the history is in the case itself)
+    res = ctx.replay("httphist", hist, again=300)
+    ctx.judge("httphist", hist, res)
 
     # a server answers requests concurrently: every response is the envelope of its own request's value
     # (N goroutines x handlers with values only they use, under the race detector)
